@@ -370,10 +370,81 @@ def _e2e_case(arg):
     return res.as_dict()
 
 
+def forms(ctx):
+    """Documented argument forms of the convenience constructors (a single number for radius / d_sectors / s_sectors,
+    arrays instead of lists, other sizes, a list of presets, omitted aim_weights and rotate): each must give the
+    concatenation of the atomic grids built by hand with the same per-atom arguments."""
+    from grid.atomgrid import AtomGrid
+    from grid.becke import BeckeWeights
+    from grid.molgrid import MolGrid
+
+    nums = np.array(MOLS["H2O"][0])
+    coords = np.array(MOLS["H2O"][1]) + lattice.jitter(ctx.seed, "forms", 0.0, 0.04)
+    rg = small_rgrid(1)
+    rs, ds, ss = [0.5, 1.0, 1.5], [3, 7, 5, 3], [6, 26, 14, 6]
+    n = len(nums)
+
+    def pruned(radius_i, dsec=None, ssec=None, rot=0):
+        return [AtomGrid.from_pruned(rg, radius_i[i], r_sectors=rs, d_sectors=dsec, s_sectors=ssec, center=coords[i], rotate=rot) for i in range(n)]
+
+    B = lambda: BeckeWeights(order=3)
+    table = [
+        ("from_pruned:float-radius", lambda: MolGrid.from_pruned(nums, coords, 1.2, [rs] * n, [ds] * n, rgrid=rg, aim_weights=B(), rotate=0),
+         lambda: pruned([1.2] * n, ds), 0),
+        ("from_pruned:int-radius", lambda: MolGrid.from_pruned(nums, coords, 1, [rs] * n, [ds] * n, rgrid=rg, aim_weights=B(), rotate=0),
+         lambda: pruned([1] * n, ds), 0),
+        ("from_pruned:array-radius", lambda: MolGrid.from_pruned(nums, coords, np.array([1.2, 1.0, 1.1]), [rs] * n, [ds] * n, rgrid=rg, aim_weights=B(), rotate=0),
+         lambda: pruned([1.2, 1.0, 1.1], ds), 0),
+        ("from_pruned:single-degree", lambda: MolGrid.from_pruned(nums, coords, 1.2, [rs] * n, 7, rgrid=rg, aim_weights=B(), rotate=0),
+         lambda: pruned([1.2] * n, [7] * 4), 0),
+        ("from_pruned:default-degree", lambda: MolGrid.from_pruned(nums, coords, 1.2, [rs] * n, rgrid=rg, aim_weights=B(), rotate=0),
+         lambda: pruned([1.2] * n, [50] * 4), 0),
+        ("from_pruned:sizes", lambda: MolGrid.from_pruned(nums, coords, 1.2, [rs] * n, s_sectors=[ss] * n, rgrid=rg, aim_weights=B(), rotate=0),
+         lambda: pruned([1.2] * n, None, ss), 0),
+        ("from_pruned:single-size", lambda: MolGrid.from_pruned(nums, coords, 1.2, [rs] * n, s_sectors=26, rgrid=rg, aim_weights=B(), rotate=0),
+         lambda: pruned([1.2] * n, None, [26] * 4), 0),
+        ("from_pruned:array-sectors", lambda: MolGrid.from_pruned(nums, coords, 1.2, np.array([rs] * n), np.array([ds] * n), rgrid=rg, aim_weights=B(), rotate=0),
+         lambda: pruned([1.2] * n, ds), 0),
+        ("from_pruned:default-seed-and-weights", lambda: MolGrid.from_pruned(nums, coords, 1.2, [rs] * n, [ds] * n, rgrid=rg),
+         lambda: pruned([1.2] * n, ds, rot=37), 37),
+        ("from_preset:list-of-presets", lambda: MolGrid.from_preset(nums, coords, ["coarse", "medium", "coarse"], rgrid=rg, aim_weights=B(), rotate=0),
+         lambda: [AtomGrid.from_preset(int(nums[i]), ["coarse", "medium", "coarse"][i], rg, center=coords[i], rotate=0) for i in range(n)], 0),
+        ("from_preset:default-seed-and-weights", lambda: MolGrid.from_preset(nums, coords, "coarse", rgrid=rg),
+         lambda: [AtomGrid.from_preset(int(nums[i]), "coarse", rg, center=coords[i], rotate=37) for i in range(n)], 37),
+    ]
+    for size in (6, 50, 110, 111):
+        table.append((f"from_size:{size}", lambda size=size: MolGrid.from_size(nums, coords, size, rgrid=rg, aim_weights=B(), rotate=0),
+                      lambda size=size: [AtomGrid(rg, degrees=None, sizes=[size], center=coords[i], rotate=0) for i in range(n)], 0))
+    table.append(("from_size:default-seed-and-weights", lambda: MolGrid.from_size(nums, coords, 26, rgrid=rg),
+                  lambda: [AtomGrid(rg, degrees=None, sizes=[26], center=coords[i], rotate=37) for i in range(n)], 37))
+    for name, make, hand_fn, rot in table:
+        ctx.count(section="argument-forms")
+        case = {"route": "forms", "form": name}
+        try:
+            with warnings.catch_warnings():
+                warnings.simplefilter("ignore")
+                mg = make()
+                hand = hand_fn()
+                pts = np.vstack([g.points for g in hand])
+                atw = np.hstack([g.weights for g in hand])
+                idx = np.concatenate([[0], np.cumsum([g.size for g in hand])])
+                aimw = BeckeWeights(order=3)(pts, coords, nums, idx)
+        except Exception as exc:
+            ctx.violation(f"forms:{name.split(':')[0]}:raised:{type(exc).__name__}", f"{name}: {type(exc).__name__}: {exc}", case)
+            continue
+        ctx.nontrivial(("forms", name), section="argument-forms")
+        if mg.points.shape != pts.shape or _gt(np.max(np.abs(mg.points - pts)), 1e-13 * (1 + np.max(np.abs(pts)))):
+            ctx.violation(f"forms:{name.split(':')[0]}:points-not-concatenation", f"{name}: points differ from the hand-built atomic grids", case)
+        elif _gt(np.max(np.abs(np.asarray(mg.weights) - atw * aimw)), 1e-12 * np.max(np.abs(atw))):
+            ctx.violation(f"forms:{name.split(':')[0]}:weights-not-atomic-times-aim", f"{name}: weights differ from atomic weights x Becke "
+                          f"weights (order 3) of the hand-built grids", case)
+
+
 def run(ctx):
     from vf.props.c05 import PRESETS
 
     ctx.guarded("structural", structural, ctx)
+    ctx.guarded("forms", forms, ctx)
     from vf import explore
 
     for store in (False, True):
@@ -398,6 +469,8 @@ def replay(ctx, case):
         from vf import explore
 
         explore.replay_history(ctx, case)
+    elif case.get("route") == "forms":
+        forms(ctx)
     elif case.get("route") == "structure":
         out = _struct_case((tuple(case["cfg"]), ctx.seed))
         ctx.merge(out[0] if isinstance(out, tuple) else out)
